@@ -65,7 +65,9 @@ def integer(ctx, world, ev):
     rets = session.rets(outs)
     ctx.require(rets, "%s.password_to_scalar has no returning path" % gname)
     ssz = gm.attr_of(ev, g, "scalar_size_bytes", st)
-    ctx.ob("H3", gname + " scalar size", ssz in width_forms(q), "scalar_size_bytes = size_bytes(q)" if ssz in width_forms(q) else
+    from .c15 import is_width
+    okw = is_width(ssz, q, {(t, p_) for (t, p_, _) in st.pc})
+    ctx.ob("H3", gname + " scalar size", okw, "scalar_size_bytes = size_bytes(q)" if okw else
            "scalar_size_bytes is %s" % show(ssz, maxdepth=5))
     for o in rets:
         v = o.value
@@ -186,6 +188,9 @@ def ed25519(ctx, world, ev):
         it = [t for t in subterms(yp) if is_app(t, "iter-elem")]
         oky = len(it) == 1 and yp == mk_app("Mod", (mk_app("Add", (y0, it[0])), Const(Q))) and is_app(it[0].args[0], "itertools.count") \
             and it[0].args[0].args in ((Const(0),), ()) and not it[0].args[0].kw
+        if not oky and len(it) == 1 and is_app(it[0].args[0], "itertools.count") and it[0].args[0].args == (y0,) and not it[0].args[0].kw \
+                and yp == mk_app("Mod", (it[0], Const(Q))):
+            oky = True             # for y_plus in itertools.count(y): candidate y_plus % Q  ==  (y + k) % Q, k = 0, 1, 2, ...
         if not oky and isinstance(yp, Sym) and yp.n.startswith("loop:"):
             # while True: the candidate is a loop-carried local.  Induction: it is y0 before the loop and
             # every way back to the loop head replaces it by (candidate + 1) mod Q
